@@ -124,7 +124,7 @@ CHECKS = {
         "assumptions": [
             "which calls must / must not invoke the error function is taken from vnacal(3), vnacal_new(3), vnacal_parameter(3), vnaproperty(3); "
             "vnadata(3) only refers to vnaerr(3), so for vnadata calls only the form of a report is judged (single line, category <-> errno, none on success), not its presence",
-            "'exactly when the manual says' is read as: at least one report before a failing return of a reporting function, none from a silent one, none (except warnings) on success",
+            "'exactly when the manual says' is read as: exactly one report (single line) before a failing return of a function the manual lists as reporting, none from a silent one, none (except warnings) on success",
             "vnaproperty queries that reach a node which exists but is null return -1/NULL with errno untouched (documented for get_subtree): not judged",
             "state after a call that fails late (allocation fault, damaged file) is only required to be usable (queried, re-initialised, saved, freed), as the statement says",
         ],
@@ -136,6 +136,7 @@ CHECKS = {
             {"check": "C11.cal", "what": "parameters, sessions, standards with invalid ports / handles, add_calibration indices, silent queries", "quick": B(3000, 35), "thorough": B(120000, 400, 100)},
             {"check": "C11.cal.retry", "what": "failed solves (too few standards) retried after adding standards", "quick": B(2000, 30), "thorough": B(80000, 300, 100)},
             {"check": "C11.cal.store.faulty", "what": "vnacal save / load under stream and allocation faults: reporting, nothing left behind", "quick": B(1500, 25), "thorough": B(60000, 250, 100)},
+            {"check": "C11.chaos", "what": "chaos call sequences (measurement-error model, tolerances, correlated parameters, rectangular shapes): reporting discipline of every call", "quick": B(15000, 20), "thorough": B(600000, 250, 500)},
             {"check": "C11.corrupt", "what": "damaged files: clean failure (errno, one-line report, no INTERNAL), destination still usable", "quick": B(6000, 20, 50), "thorough": B(300000, 250, 200)},
         ],
     },
